@@ -28,6 +28,9 @@ C["C02"] = dict(
 C["C04"] = dict(
   text="Lean 4 theorems over a strict bencode codec mirroring bendy (mutual inductive values, fuelled decoder proved sound: whatever decodes is byte-for-byte what was stored): whenever Infohash::from_input succeeds on ANY byte string - unknown keys, non-UTF-8 strings, nested values, trailing bytes, any nesting limit - a value-free scanner finds the span of `info`, the span is a contiguous part of the input and the reported hash is H(span) (infohash_is_span). Correspondence: generated accepted and malformed torrents through show, show --json, show from stdin, link, create --link/--show; 40-hex values compared with SHA-1 of the span found by the harness's own scanner and with the model.",
   note="Trusted: Lean kernel; bendy's decoder/encoder modelled, tied by the differential check; SHA-1 as a parameter.")
+C["C05"] = dict(
+  text="Lean 4 theorems over a typed metainfo model (createMetainfo = Create::run's assembly; toBVal = bendy's serde struct encoding via sorted insertion): for every option record, clock value and hash result the top-level and info dictionaries have strictly ascending keys (canonical, unique), and one lookup theorem per option states the key holds exactly the requested value and is absent when not given (announce, tiers in order, comment, created by, creation date = the clock value, encoding = UTF-8, nodes as [host, port], name, piece length, pieces, private = 1 iff requested, source, update-url); output is a function of options+hash result and independent of the clock under --no-creation-date. Correspondence: random option subsets on the CLI; written file compared byte for byte with the model's encoding, read back key by key by the harness's own strict decoder, re-created twice in opposite entry orders.",
+  note="Trusted: Lean kernel; serde/bendy struct serialisation modelled and tied by byte-for-byte comparison; URL normalisation assumed identity on generated forms; decode completeness partial.")
 
 
 def main():
